@@ -317,3 +317,33 @@ Theorem splitWildcards_src_eq : forall p,
   SrcFns.splitWildcards p = Some (jn (fst (split_wild cs)), jn (snd (split_wild cs))).
 Proof. exact SplitWildcardsEq.splitWildcards_src_eq. Qed.
 Print Assumptions splitWildcards_src_eq.
+
+(* ---- backslash escapes in wildcard sources.  The model's resolve_wild (and with it overlay_all,
+   copy_top and every theorem above) honours them: a component is a pattern iff it holds an
+   UNESCAPED * ? [ ([has_wild_e]: the byte after a backslash is skipped, as containsWildcards does
+   on Linux); the components before the first pattern component are a literal path, backslashes
+   included ([split_wild_e]); matching is filepath.Match restricted to literals, *, ? and \x
+   ([glob_e]; character classes and a trailing lone backslash: EScope).  On components without a
+   backslash they are the plain has_wild / split_wild (/ glob) of the two source-equivalence theorems above. *)
+From FS Require Proofs.CopyWildP.
+Theorem has_wild_e_backslash_free :
+  forall c, existsb (N.eqb ch_bsl) c = false -> has_wild_e c = has_wild c.
+Proof. exact CopyWildP.has_wild_e_plain. Qed.
+Theorem split_wild_e_backslash_free :
+  forall cs, forallb (fun c => negb (existsb (N.eqb ch_bsl) c)) cs = true -> split_wild_e cs = split_wild cs.
+Proof. exact CopyWildP.split_wild_e_plain. Qed.
+Theorem glob_e_backslash_free :
+  forall pat, existsb (N.eqb ch_bsl) pat = false -> forall name, glob_e pat name = glob pat name.
+Proof. exact CopyWildP.glob_e_plain. Qed.
+Print Assumptions has_wild_e_backslash_free.
+Print Assumptions split_wild_e_backslash_free.
+Print Assumptions glob_e_backslash_free.
+
+(* "\[*" and "x\??" are patterns (an escaped metacharacter followed by real ones), "\[" and "a\*" are
+   literal names; "\[*" matches "[ab", "x\??" matches "x?z" and not "xyz" *)
+Example ex_escapes :
+  has_wild_e [92; 91; 42] && has_wild_e [120; 92; 63; 63] && negb (has_wild_e [92; 91]) && negb (has_wild_e [97; 92; 42]) &&
+  has_wild_e [92; 92; 42] && glob_e [92; 91; 42] [91; 97; 98] && glob_e [120; 92; 63; 63] [120; 63; 122] &&
+  negb (glob_e [120; 92; 63; 63] [120; 121; 122]) = true.
+Proof. vm_compute. reflexivity. Qed.
+
